@@ -133,3 +133,131 @@ _HEX = re.compile(r"0x[0-9a-fA-F]+")
 
 def scrub(text):
     return _HEX.sub("0x?", text or "")
+
+
+# ---- classification of a divergence (stable violation keys) ------------------------------------------------------
+def _daemons(log):
+    d = set()
+    for line in log:
+        t = line.split()
+        if len(t) > 6 and t[3] == "B" and t[-1] == "daemon=1":
+            d.add(t[1])
+    return d
+
+
+def _klass(line):
+    """Event class used in violation keys: phase.op, exceptions by class only (the op that was interrupted varies)."""
+    if line is None:
+        return "end-of-log"
+    k = kind_of(line).split(":")
+    if k[0] == "X":
+        return "X." + k[-1]
+    return ".".join(k)
+
+
+def situation(ref, la, lb, actor_mode=False):
+    """What was going on where two runs start to differ. ref = a complete log of one of the runs, la/lb = first differing lines
+    (None = the log ended)."""
+    if la is None or lb is None:
+        return "one-log-ends"
+    ta, tb = la.split(), lb.split()
+    if ta[0] != tb[0]:
+        return "date-differs"
+    date = ta[0]
+    dm = _daemons(ref)
+    # nothing but daemons (and maestro) is heard of after that date: this is the final sweep of Engine::run()
+    at_end = not any(date_of(l) > float(date) and l.split()[1] not in dm and l.split()[1] != "-" for l in ref)
+    if at_end and ta[3] == tb[3] == "E" and ta[1] in dm and tb[1] in dm:
+        return "daemons-killed-at-end"
+    if at_end and ta[1] == tb[1] == "-" and ta[3] == tb[3] == "T" and ta[4] in dm and tb[4] in dm:
+        return "daemons-killed-at-end"
+    died = False
+    for line in ref:
+        t = line.split(" ", 4)
+        if t[0] == date and len(t) > 3 and t[3] == "E":
+            died = True
+            break
+    return "after-actor-death" if died else "same-date-tie"
+
+
+def divergence_key(prop, ref, other, per_actor_mode=False):
+    """Compare two logs. Returns None when they agree, else (key, what, detail dict).
+    per_actor_mode: only the per-actor sequences (maestro's included) must agree (parallel runs)."""
+    if not per_actor_mode:
+        i = first_divergence(ref, other)
+        if i is None:
+            return None
+        la = ref[i] if i < len(ref) else None
+        lb = other[i] if i < len(other) else None
+        shape = "order" if per_actor(ref) == per_actor(other) else "values"
+        text = describe_divergence(ref, other, i)
+    else:
+        pa, pb = per_actor(ref), per_actor(other)
+        if pa == pb:
+            return None
+        best = None
+        for act in sorted(set(pa) | set(pb)):
+            x, y = pa.get(act, []), pb.get(act, [])
+            j = first_divergence(x, y)
+            if j is None:
+                continue
+            lx = x[j] if j < len(x) else None
+            ly = y[j] if j < len(y) else None
+            d = min(date_of(l) for l in (lx, ly) if l is not None)
+            if best is None or d < best[0]:
+                best = (d, act, j, lx, ly, x, y)
+        _d, act, j, la, lb, x, y = best
+        shape = "values"
+        text = "actor %s: " % act + describe_divergence(x, y, j)
+    kinds = sorted({_klass(la), _klass(lb)})
+    sit = situation(ref, la, lb)
+    key = "%s:diverge:%s:%s" % (prop, "|".join(kinds), sit)
+    return key, text, {"shape": shape, "kinds": kinds, "situation": sit}
+
+
+def corrupt(log, how, rng):
+    """Oracle self-test only: damage a log the way a kernel defect would (see the props modules, VERIF_SELFTEST)."""
+    log = list(log)
+    if how == "swap":      # two adjacent lines of different actors at the same date change places
+        idx = [i for i in range(len(log) - 1) if log[i].split()[0] == log[i + 1].split()[0]
+               and log[i].split()[1] != log[i + 1].split()[1] and "-" not in (log[i].split()[1], log[i + 1].split()[1])]
+        if idx:
+            i = rng.choice(idx)
+            log[i], log[i + 1] = log[i + 1], log[i]
+    elif how == "date":    # one return happens one ulp-ish later
+        idx = [i for i, l in enumerate(log) if " R " in l and not l.startswith("0 ")]
+        if idx:
+            i = rng.choice(idx)
+            t = log[i].split(" ", 1)
+            log[i] = "%.17g %s" % (float(t[0]) * (1 + 2 ** -50), t[1])
+    elif how == "drop":
+        idx = [i for i, l in enumerate(log) if " R " in l]
+        if idx:
+            del log[rng.choice(idx)]
+    elif how == "value":   # a receive gets another message
+        idx = [i for i, l in enumerate(log) if "msg=" in l]
+        if idx:
+            i = rng.choice(idx)
+            log[i] = log[i] + "x"
+    return log
+
+
+def sanitizer_key(err):
+    """(kind, stable tag) of the first sanitizer report in a stderr text, or None. The tag names the error type and the function
+    (ASan/TSan SUMMARY line) or the source line and message (UBSan); addresses and pids are dropped."""
+    reps = proc.sanitizer_reports(err)
+    if not reps:
+        return None
+    kind, head = reps[0]
+    for line in err.splitlines():
+        if line.startswith("SUMMARY:") and kind != "ubsan":
+            t = line.split()
+            typ = t[2] if len(t) > 2 else "?"
+            func = line.split(" in ", 1)[1].strip() if " in " in line else "?"
+            func = re.sub(r"\(.*", "", func)
+            return kind, "%s:%s" % (typ, scrub(func)[:80])
+    if kind == "ubsan":
+        m = re.search(r"([^/\s:]+:\d+):\d+: runtime error: (.*)", head)
+        if m:
+            return kind, "%s:%s" % (m.group(1), "-".join(scrub(m.group(2)).split()[:6]))
+    return kind, scrub(head)[-60:]
